@@ -319,7 +319,7 @@ func knownTextDiff(e0, ek error) string {
 			}
 		}
 		if reflect.TypeOf(b[i]).String() == "*errbase.opaqueLeaf" && ta != tb {
-			k := string(errbase.GetTypeKey(b[i]))
+			k := strings.TrimSuffix(string(errbase.GetTypeKey(b[i])), unkSuffix)
 			if isBarrierLike(k) && eqModMarkers(ta, tb) {
 				opaqueBarrier = true
 			}
@@ -705,6 +705,13 @@ func init() {
 		e1 := transferOnce(o.e, nil) // what a knowing receiver gets directly
 		t0 := textTree(o.e).String()
 		for _, hops := range o.c.Hops {
+			// the same journey with the other simulation of "does not know the type": the family
+			// names are renamed on the wire and every decoder stays registered
+			if why, detail := renamedJourney(o.e, e1, hops, t0); why != "" {
+				o.evals++
+				o.fail("with unknown types simulated by renaming families on the wire, hops "+hopsStr(hops)+": "+why, "", detail)
+				return
+			}
 			// hops: unknowing / partially knowing intermediaries
 			cur := o.e
 			for hi, h := range hops {
@@ -758,6 +765,80 @@ func init() {
 			}
 		}
 	}
+}
+
+const unkSuffix = "#not-known-here"
+
+func renameFamilies(x *errorspb.EncodedError, keys map[string]bool, strip bool) {
+	one := func(d *errorspb.EncodedErrorDetails) {
+		if strip {
+			d.ErrorTypeMark.FamilyName = strings.TrimSuffix(d.ErrorTypeMark.FamilyName, unkSuffix)
+		} else if keys[d.ErrorTypeMark.FamilyName] {
+			d.ErrorTypeMark.FamilyName += unkSuffix
+		}
+	}
+	if w := x.GetWrapper(); w != nil {
+		one(&w.Details)
+		renameFamilies(&w.Cause, keys, strip)
+	} else if l := x.GetLeaf(); l != nil {
+		one(&l.Details)
+		for _, c := range l.MultierrorCauses {
+			renameFamilies(c, keys, strip)
+		}
+	}
+}
+
+func familyTree(x *errorspb.EncodedError) string {
+	if w := x.GetWrapper(); w != nil {
+		return "(" + w.Details.ErrorTypeMark.FamilyName + " " + familyTree(&w.Cause) + ")"
+	}
+	if l := x.GetLeaf(); l != nil {
+		s := "(" + l.Details.ErrorTypeMark.FamilyName
+		for _, c := range l.MultierrorCauses {
+			s += " " + familyTree(c)
+		}
+		return s + ")"
+	}
+	return "()"
+}
+
+func renamedJourney(origin, direct error, hops [][]string, t0 string) (string, string) {
+	ctx := context.Background()
+	wire := errors.EncodeError(ctx, origin)
+	for hi, h := range hops {
+		keys := map[string]bool{}
+		for _, k := range h {
+			keys[k] = true
+		}
+		bs, err := proto.Marshal(&wire)
+		if err != nil {
+			panic(err)
+		}
+		var in errorspb.EncodedError
+		if err := proto.Unmarshal(bs, &in); err != nil {
+			panic(err)
+		}
+		renameFamilies(&in, keys, false)
+		want := familyTree(&in)
+		mid := errors.DecodeError(ctx, in)
+		if t := textTree(mid).String(); t != t0 && knownTextDiff(origin, mid) == "" {
+			return fmt.Sprintf("Error() text / shape at intermediary %d differs from the origin", hi), firstDiff(t0, t)
+		}
+		out := errors.EncodeError(ctx, mid)
+		if got := familyTree(&out); got != want {
+			return fmt.Sprintf("intermediary %d forwards other type families than it received (a type it does not know must stay as sent)", hi), firstDiff(want, got)
+		}
+		renameFamilies(&out, nil, true)
+		wire = out
+	}
+	fin := errors.DecodeError(ctx, wire)
+	if a, b := shapeSx(direct).String(), shapeSx(fin).String(); a != b {
+		return "knowing receiver reconstructs a different tree than a direct receiver", firstDiff(a, b)
+	}
+	if a, b := verboseNoStacks(direct), verboseNoStacks(fin); a != b && knownTextDiff(origin, fin) == "" {
+		return "%+v at the knowing receiver differs from direct receipt", firstDiff(a, b)
+	}
+	return "", ""
 }
 
 // every node of the decoded error is an opaque type (the process knew none of
@@ -1211,6 +1292,14 @@ func init() {
 			}
 			// %+v layout
 			pv := fmt.Sprintf("%+v", errors.Formattable(e))
+			if isLibOuter(e) {
+				// a library type formats itself with the same engine
+				o.evals++
+				if own := fmt.Sprintf("%+v", e); own != pv {
+					o.fail(fmt.Sprintf("%%+v of e (%T) differs from %%+v of Formattable(e) (%s)", e, where), "", firstDiff(own, pv))
+					return false
+				}
+			}
 			var types []string
 			typeOrder(e, &types)
 			o.evals++
@@ -1753,7 +1842,11 @@ func init() {
 		pool := append(append([]error{}, o.refs...), nodes...)
 		for i, r := range pool {
 			o.evals++
-			if r != nil && goerr.Is(o.e, r) && !errors.Is(o.e, r) {
+			if r == nil {
+				continue
+			}
+			lib, std := errors.Is(o.e, r), goerr.Is(o.e, r)
+			if std && !lib {
 				o.fail(fmt.Sprintf("the standard errors.Is(e, probe %d) holds but the library's Is does not", i), "", fmt.Sprintf("%T %q", r, r))
 				return
 			}
